@@ -3,7 +3,7 @@
    Model: Desc/ConvertModel.v ([new_file] = protodesc.NewFile without validation,
    [to_proto] = protodesc.ToFileDescriptorProto). *)
 From Coq Require Import List NArith ZArith Bool.
-From PB Require Import Base.PBytes Desc.ConvertModel Desc.ConvertP.
+From PB Require Import Base.PBytes Desc.ConvertModel Desc.ConvertP Desc.ConvertRtP.
 Import ListNotations.
 Open Scope N_scope.
 
@@ -68,6 +68,39 @@ Theorem C34_to_proto_new_file_partial :
 Proof. exact to_proto_new_file. Qed.
 Print Assumptions C34_to_proto_new_file_partial.
 
+(* NewFile (ToFileDescriptorProto d) = d for every d that NewFile builds from a well-formed
+   proto: the whole resolved descriptor is reproduced, hence every accessor computed from it.
+   [wf34] (decidable): types are set; an editions file does not use TYPE_GROUP / LABEL_REQUIRED;
+   proto3_optional only in proto3; an extension's json_name is the camel-cased name -- all
+   guaranteed by protoc and (except the editions spellings, FK4) enforced by desc_validate.go.
+   Hypotheses: default canonicalisation is idempotent (C39); the resolver only knows valid full
+   names (C33).  _partial as above (opaque options, services by name, no validation stage). *)
+Theorem C34_new_file_to_proto_partial :
+  forall canon env p d,
+    (forall k s, canon k (canon k s) = canon k s) ->
+    Forall valr env ->
+    wf34 p = true ->
+    new_file canon env p = Ok d -> new_file canon env (to_proto d) = Ok d.
+Proof. exact new_file_to_proto. Qed.
+Print Assumptions C34_new_file_to_proto_partial.
+
+(* ... and NewFile accepts the normal form and builds the same descriptor from it *)
+Theorem C34_new_file_normalize_partial :
+  forall canon env p d,
+    (forall k s, canon k (canon k s) = canon k s) ->
+    Forall valr env ->
+    wf34 p = true ->
+    new_file canon env p = Ok d -> new_file canon env (normalize canon env p) = Ok d.
+Proof. exact new_file_normalize. Qed.
+Print Assumptions C34_new_file_normalize_partial.
+
+(* [wf34] is needed: the faithful model refutes the unconditional statement (finding FK4) *)
+Theorem C34_new_file_to_proto_refuted_without_wf :
+  exists p d, new_file idc [] p = Ok d /\ first_field_card (Ok d) = Some 2 /\
+              first_field_card (new_file idc [] (to_proto d)) = Some 1.
+Proof. exact new_file_to_proto_needs_wf. Qed.
+Print Assumptions C34_new_file_to_proto_refuted_without_wf.
+
 (* ---- non-vacuity *)
 Definition ex_b (s : list byte) : bytes := s.
 Definition ex_tbl : list Decl :=
@@ -103,3 +136,6 @@ Example C34_ex_normal_form :
   | _ => False
   end.
 Proof. exact ex_file_normal_form. Qed.
+
+Example C34_ex_wf34 : wf34 ex_file = true /\ Forall valr [] /\ (forall k s, idc k (idc k s) = idc k s).
+Proof. split; [exact ex_file_wf34|split; [constructor|exact idc_idem]]. Qed.
